@@ -409,11 +409,61 @@ def rule_callers(fx, rep):
                 ok = False
                 rep.violation("C11-CALLERS", f"C11-CALLERS/{fn.split('::')[-1]}/{p.split('::')[-1]}",
                               f"`{fn}` does not return the draw score when `{p.split('::')[-1]}` holds", {"fn": b.name, "file": b.file, "line": b.line})
+    # the draw tests are unconditional apart from the root exemption and their own short-circuit: no test of the position's
+    # state (clock, history length, ..) decides whether a predicate is consulted at all - e.g. `halfmove_clock > 0 && (..)` switches
+    # the dead-material test off exactly after the capture that produced the dead material
+    for fn in ("search::negamax::negamax", "search::quiescence::quiescence"):
+        b = fx.one(fn)
+        for p in PREDS:
+            calls = b.calls_to(p)
+            if not calls:
+                for w in wrappers_of(fx, p):
+                    calls = calls or b.calls_to(w)
+            for cb, t in calls[:1]:
+                n += 1
+                offending = []
+                for (e, pol, w) in guard_conditions(b, cb, expand_named=True):
+                    if any(find_calls(e, q) for q in PREDS):
+                        continue
+                    flds = [x[2] for x in walk(e) if isinstance(x, tuple) and len(x) == 3 and x[0] == "field" and isinstance(x[2], str) and
+                            x[2] in ("halfmove_clock", "history", "plies", "en_passant_target", "castle_rights", "board", "player") and
+                            isinstance(deep_strip(x[1]), tuple) and deep_strip(x[1])[:2] == ("arg", 1)]
+                    if flds:
+                        offending.append((flds[0], show(e)[:60]))
+                good = not offending
+                rep.obligation(good)
+                if not good:
+                    ok = False
+                    rep.violation("C11-CALLERS", f"C11-CALLERS/conditional/{fn.split('::')[-1]}/{p.split('::')[-1]}", f"`{fn}` consults `{p.split('::')[-1]}` only under a condition on the position's `{offending[0][0]}` (`{offending[0][1]}`): "
+                                  "the draw rule is switched off for some positions", {"fn": b.name, "file": b.file, "line": t.get("line")})
+    # the draw tests come before the transposition-table probe: a table entry was stored along some other history and knows nothing
+    # about repetitions (or the clock) along this one, so a probe that can cut off first answers a drawn node with a stale score
+    for fn in ("search::negamax::negamax",):
+        b = fx.one(fn)
+        probes = [bb for bb, t in b.calls() if norm(callee_name(t) or "").endswith("TranspositionTable::get")]
+        for p in PREDS:
+            calls = b.calls_to(p)
+            if not calls:
+                for w in wrappers_of(fx, p):
+                    calls = calls or b.calls_to(w)
+            for pb in probes:
+                n += 1
+                good = not any(cb in b.reachable(pb) for cb, _ in calls)
+                rep.obligation(good)
+                if not good:
+                    ok = False
+                    rep.violation("C11-CALLERS", f"C11-CALLERS/after-probe/{p.split('::')[-1]}", f"`{fn}` consults `{p.split('::')[-1]}` only after probing the transposition table: a hash cut-off can answer a node that is drawn along the current game history",
+                                  {"fn": b.name, "file": b.file, "line": calls[0][1].get("line") if calls else b.line})
     rep.rule("C11-CALLERS", n, 6, ok, "both search functions consult the three draw predicates")
 
 
 G = "src/chess/game.rs"
 MUTANTS = [
+    {"name": "draw tests moved below the hash probe (seed C11-4a)", "expect": "C11-CALLERS/after-probe",
+     "edits": [("src/engine/search/negamax.rs", "    if !is_root\n        && (game.is_repeated_position()\n            || game.is_stalemate_by_fifty_move_rule()\n            || game.is_stalemate_by_insufficient_material())\n    {\n        return Ok(Eval::DRAW);\n    }\n", ""),
+               ("src/engine/search/negamax.rs", "    let tb_cardinality = ctx.tablebase.n_men();", "    if !is_root\n        && (game.is_repeated_position()\n            || game.is_stalemate_by_fifty_move_rule()\n            || game.is_stalemate_by_insufficient_material())\n    {\n        return Ok(Eval::DRAW);\n    }\n\n    let tb_cardinality = ctx.tablebase.n_men();")]},
+    {"name": "quiescence skips the draw tests when the clock is zero (seed C11-4b)", "expect": "C11-CALLERS/conditional/quiescence",
+     "edits": [("src/engine/search/quiescence.rs", "    if game.is_repeated_position()\n        || game.is_stalemate_by_fifty_move_rule()\n        || game.is_stalemate_by_insufficient_material()\n    {", "    if game.halfmove_clock > 0\n        && (game.is_repeated_position()\n            || game.is_stalemate_by_fifty_move_rule()\n            || game.is_stalemate_by_insufficient_material())\n    {")]},
     {"name": "promotion no longer resets the halfmove clock (seed C11-3)", "expect": "C11-CLOCK",
      "edits": [(G, "            maybe_captured_piece.is_some() || moved_piece.kind == PieceKind::Pawn;", "            maybe_captured_piece.is_some() || (moved_piece.kind == PieceKind::Pawn && mv.promotion().is_none());")]},
     {"name": "king and two minors versus king with a pawn counted as dead", "expect": "C11-MATERIAL",
